@@ -13,7 +13,7 @@ LEVEL = "model_checking"
 RULE = (
     "inputs = bounded ARGs (which contain nodes present in loci {0,2} but absent in locus 1), each also with every single locus and every "
     "pair of loci deleted (edge-free regions in the middle / at either end, re-simplified) x mutation patterns (one mutation above every "
-    "node incl. local roots; menu patterns) x K (sample isolated over a locus, with a mutation on it) x node metadata schema {none, "
+    "node incl. local roots, sites strictly inside the tree; the same with the first site exactly ON the left breakpoint of the tree and its mutation above each of the first three internal nodes in turn; menu patterns) x K (sample isolated over a locus, with a mutation on it) x node metadata schema {none, "
     "permissive JSON, struct}. one evaluation = one util.split_disjoint_nodes call (+ a second application). oracle: the call returns; "
     "per-position parent maps equal the input's after mapping each copy to its origin (via unsplit_node_id when present, else via its "
     "unique time); the first N ids are the input nodes and the leftmost piece keeps the original id; copies keep time/population/"
@@ -38,9 +38,12 @@ def cases(tier, seed):
             if tier == "quick" and schema == "struct" and d is None:
                 continue
             out.append({"arg": a, "delete": d, "mut": mutp, "schema": schema, "K": None})
+        for d, r in itertools.product(dels, range(3)):
+            # a site exactly ON each tree's left breakpoint, its mutation above the r-th internal node of that tree (seed C29b)
+            out.append({"arg": a, "delete": d, "mut": f"boundary{r}", "schema": "json", "K": None})
         for s_, l_ in itertools.product(range(a["n"]), range(L)):
             out.append({"arg": a, "delete": None, "mut": "every_node", "schema": "json", "K": [s_, l_]})
-    return {"cases": out, "states": sp.states, "transitions": sp.transitions, "bound": f"{sp.describe()} (2 numberings) x deleted loci (none, each, {{0,2}}) x 2 mutation patterns x 3 node-metadata schemas + every (sample,locus) isolation", "exhaustive": True}
+    return {"cases": out, "states": sp.states, "transitions": sp.transitions, "bound": f"{sp.describe()} (2 numberings) x deleted loci (none, each, {{0,2}}) x 2 mutation patterns x 3 node-metadata schemas + 3 breakpoint-site patterns + every (sample,locus) isolation", "exhaustive": True}
 
 
 def build(case):
@@ -58,7 +61,18 @@ def build(case):
         if ts.num_edges == 0:
             return None
     t = ts.dump_tables()
-    if case["mut"] == "every_node":
+    if case["mut"].startswith("boundary"):
+        r = int(case["mut"][8:])
+        for tree in ts.trees():
+            if tree.num_edges == 0:
+                continue
+            inner = [u for u in tree.nodes() if tree.num_children(u) > 0]
+            inner = inner[r % len(inner) :] + inner[: r % len(inner)]
+            nodes = inner + [u for u in tree.nodes() if tree.num_children(u) == 0]
+            for j, u in enumerate(nodes):
+                s = t.sites.add_row(tree.interval.left + tree.span * j / len(nodes), "A")
+                t.mutations.add_row(s, u, derived_state="T")
+    elif case["mut"] == "every_node":
         k = 0
         for tree in ts.trees():
             if tree.num_edges == 0 and not case["K"]:
